@@ -633,10 +633,13 @@ def check_odeint(chk, project, tdir, neq):
     step_after = st.load("obs", offs[1][0])
     r = str(s.check(z3.And(z3.Not(g_throw), Iz_(step_after) != step + 1)))
     chk.ok("observer-counts") if r == "unsat" else chk.unknown("observer-counts", r)
+    obs_offs = offs
     # Solve: FAIL <=> integrate_adaptive threw std::runtime_error
-    for scenario in ("returns", "throws"):
+    for scenario in ("returns", "throws", "two-calls"):
         st_ = H.base_stubs()
-        M = Machine([ll], st_)
+        # naunet_ode.cpp is loaded too so that the real Observer constructor runs
+        M = Machine([ll, ll_ode], st_)
+        seen = []
         dem = H.demangle(sorted(M.funcs))
         sname = next(n for n, d in dem.items() if d.startswith("Naunet::Solve("))
         data = {}
@@ -659,6 +662,11 @@ def check_odeint(chk, project, tdir, neq):
             # y(t) = y0 + t on the vector handed in (3rd argument)
             vi = next(i for i, x in enumerate(a) if isinstance(x, Ptr) and x.obj in data)
             vec, tstart, tend = a[vi], a[vi + 1], a[vi + 2]
+            ob = a[-1]
+            if isinstance(ob, Ptr):
+                seen.append((st.pathcond(), st.load(ob.obj, ob.off + obs_offs[0][0]), st.load(ob.obj, ob.off + obs_offs[1][0])))
+            else:
+                seen.append((st.pathcond(), None, None))
             if scenario == "throws":
                 return st, Throw(Ptr("exc", 0), 1)
             o = data[vec.obj]
@@ -672,12 +680,30 @@ def check_odeint(chk, project, tdir, neq):
             (r"ublas::vector<double>::~vector", lambda M_, st, a: (st, None)),
             (r"integrate_adaptive<", integrate),
             (r"make_controlled<", lambda M_, st, a: (st, None)),
-            (r"^Observer::Observer\(int\)|^Observer::~Observer|^Fex::Fex|^Fex::~Fex|^Jac::Jac|^Jac::~Jac", lambda M_, st, a: (st, None)),
+            (r"^Observer::~Observer|^Fex::Fex|^Fex::~Fex|^Jac::Jac|^Jac::~Jac", lambda M_, st, a: (st, None)),
             (r"^std::terminate", lambda M_, st, a: (st, None)),
         ]
         M.stubs["llvm.eh.typeid.for"] = lambda M_, st, a: (st, 1)
         M.stubs["__cxa_begin_catch"] = lambda M_, st, a: (st, Ptr("exc", 0))
         M.stubs["__cxa_end_catch"] = lambda M_, st, a: (st, None)
+
+        # function-local statics: initialised by whichever call comes first, never again
+        def guard_acquire(M_, st, a):
+            v = st.load(a[0].obj, a[0].off)
+            return st, (1 if (v is None or (isinstance(v, int) and v == 0)) else 0)
+
+        def guard_release(M_, st, a):
+            st.store(a[0].obj, a[0].off, 1)
+            return st, None
+
+        M.stubs["__cxa_guard_acquire"] = guard_acquire
+        M.stubs["__cxa_guard_release"] = guard_release
+        M.stubs["__cxa_guard_abort"] = lambda M_, st, a: (st, None)
+        M.stubs["__cxa_atexit"] = lambda M_, st, a: (st, 0)
+        # of naunet_ode.cpp only the Observer constructor is wanted: the functors' special members stay stubs
+        for n_, d_ in dem.items():
+            if re.search(r"^Observer::~Observer|^Fex::Fex|^Fex::~Fex|^Jac::Jac|^Jac::~Jac|^Fex::operator|^Jac::operator", d_ or ""):
+                M.stubs[n_] = lambda M_, st, a: (st, None)
         M.opaque_indirect = True
         M.trunc_identity = True  # step count size_t -> int: no wrap-around claimed
         extdem = {}
@@ -704,10 +730,40 @@ def check_odeint(chk, project, tdir, neq):
         st.size["ab"] = 8 * neq
         st.mem["ab"] = {8 * i: y0[i] for i in range(neq)}
         st.size["udata"] = 256
+        fields = class_fields(project, tdir)
+        fo = {n: o for n, (o, _) in zip(fields, offs)} if len(fields) == len(offs) else {}
+        mx1, mx2 = z3.Int("mxsteps_first"), z3.Int("mxsteps_second")
+        if "mxsteps_" in fo:
+            st.mem["this"][fo["mxsteps_"]] = mx1
         try:
             _, ret = M.run_function(sname, st, [Ptr("this", 0), Ptr("ab", 0), dt, Ptr("udata", 0)])
+            if scenario == "two-calls":
+                # the same object is given another step budget (Reset) and Solve is called again in the same process state
+                if "mxsteps_" not in fo:
+                    raise Inconclusive("class Naunet has no member mxsteps_")
+                st.store("this", fo["mxsteps_"], mx2)
+                n1 = len(seen)
+                _, ret2 = M.run_function(sname, st, [Ptr("this", 0), Ptr("ab", 0), dt, Ptr("udata", 0)])
         except Inconclusive as e:
             chk.unknown(f"{tdir}:Solve:{scenario}", e)
+            continue
+        if scenario == "two-calls":
+            s = z3.Solver()
+            for which, lo, hi, mx in (("first", 0, n1, mx1), ("second", n1, len(seen), mx2)):
+                name = f"{tdir}:Solve:{which}-call:observer-carries-current-step-budget"
+                if hi - lo < 1 or any(m_ is None for _, m_, _ in seen[lo:hi]):
+                    chk.unknown(name, "no observer object seen at integrate_adaptive")
+                    continue
+                bad = z3.Or([z3.And(pc, z3.Or(Iz_(m_) != mx, Iz_(st_) != 0)) for pc, m_, st_ in seen[lo:hi]])
+                r = str(s.check(bad))
+                if r == "unsat":
+                    chk.ok(name)
+                elif r == "sat":
+                    mdl = s.model()
+                    chk.violation(f"{tdir}:Solve:observer-budget:{which}-call", f"the step-budget observer handed to the integrator in the {which} Solve call of a process does not carry the object's current mxsteps_ with a zero step count (mxsteps_ = {mdl.eval(mx, model_completion=True)}, observer has {z3.simplify(Iz_(seen[lo][1]))}): exceeding the current budget is not reported as failure",
+                                  {"target": tdir, "call": which, "model": {str(d): str(mdl[d]) for d in mdl.decls()}, "replay_note": "values read from the compiled Solve: function-local static state survives between calls"})
+                else:
+                    chk.unknown(name, r)
             continue
         want = FAIL if scenario == "throws" else SUCCESS
         s = z3.Solver()
